@@ -1909,7 +1909,10 @@ class PseudoNetCDFFile(PseudoNetCDFSelfReg, object):
         """
         from collections.abc import Iterable
         outf = self._copywith(props=True, dimensions=False)
-        if isinstance(other, Iterable):
+        if (
+            isinstance(other, Iterable) and
+            not isinstance(other, PseudoNetCDFFile)
+        ):
             fs = [self] + list(other)
         else:
             fs = [self, other]
